@@ -18,6 +18,19 @@ def check(res, rec):
                       detail=f"pre {rec.pre}\npost {rec.post}", replay=rec.replay)
 
 
+def run_warnings_as_errors(ctx):
+    """I1 after every mutator call that a warning-turned-error ends half-way (the statement: also after a call that raised)"""
+    res = ctx.res
+    h = H(ctx.src, ["edgegraph.builder.explicit", "edgegraph.traversal.helpers"])
+    n = 0
+    import itertools
+    for rec in itertools.chain(struct.core_runs(h, 3, res=res), struct.ctor_runs(h, res=res), struct.explicit_runs(h, res=res, thorough=False)):
+        if common.warned(rec.out):
+            check(res, rec)
+            n += 1
+    res.rule("I1-STEP/warnings-as-errors", n)
+
+
 def run(ctx):
     res = ctx.res
     res.rule_text = ("inductive step for I1 (l in v.links <=> v in l.vertices, no duplicate in v.links): every abstract pre-state satisfying I1 "
